@@ -12,6 +12,7 @@ import (
 	"runtime"
 	"strings"
 	"sync"
+	"syscall"
 	"time"
 
 	mcp "trpc.group/trpc-go/trpc-mcp-go"
@@ -27,6 +28,10 @@ func selfExe() string {
 }
 
 func main() {
+	if arg := os.Getenv(sleeperEnv); arg != "" {
+		sleeperMain(arg) // this binary re-executed as the helper process a stdio peer leaves behind
+		return
+	}
 	if raw := os.Getenv(childEnv); raw != "" {
 		childMain(raw) // this binary re-executed as the stdio peer of a StdioClient
 		return
@@ -36,11 +41,12 @@ func main() {
 		return
 	}
 	hk.Main(&hk.Component{Name: "calls", Rule: "fault scripts on mcp.NewClient (JSON and SSE answers), mcp.NewSSEClient and mcp.NewStdioClient (child = this binary re-executed) against scripted raw peers: " +
-		"fault kinds {peer closes the connection, reset (SO_LINGER 0), stall, truncation inside headers / inside the frame, kill -9 / exit / closed stdout of the child, HTTP 500, none} " +
+		"fault kinds {peer closes the connection, reset (SO_LINGER 0), stall, truncation inside headers / inside the frame, kill -9 / exit / closed stdout of the child, kill -9 / exit of a child that has left a helper process behind which still holds its stderr, HTTP 500, none, linger = the peer keeps the POST's event stream open after the complete final answer frame (silently / an SSE comment every 100 ms; with a notification handler registered it ends the stream 250 ms later)} " +
 		"x position in the answer {nothing sent, inside the headers, headers done, inside the data (sampled byte offsets; thorough: every offset), data line complete, frame complete} " +
 		"x framing {Content-Length, chunked, until-EOF, pipe} x {1, 3} calls pending x {0, 1} calls answered before the fault x caller context {none, cancel, deadline, transport timeout}; " +
 		"plus the server half (raw TCP peers against the real Streamable HTTP and legacy SSE servers: handshake, listening stream, a tools/call blocking on its context; every connection then closed / reset; census), Close() on a live child, Close() right after Initialize (listening stream started afterwards), kill -9 + Close() with 64 calls pending (in a re-executed copy: a panic there is an observation, not a crash of the harness); " +
-		"every scenario's call outcomes, pending-table size and resource ledger after Close are diffed against the Lean model; model-free oracles: error within 2 s of the fault, own nonce in every result, " +
+		"every scenario's call outcomes, pending-table size and resource ledger after Close are diffed against the Lean model; model-free oracles: error within 2 s of the fault, return within 1 s of the complete answer (and of the end of the stream where the reader drains it), own nonce in every result, " +
+		"every scenario is bounded in time (a call that has not returned 6 s after the fault / 3 s after its complete answer is the observation 'hung': its goroutine is abandoned and the peer torn down; Close() 8 s; once a hang of a class of scenarios is confirmed the class runs with short ceilings and is skipped after 3 more occurrences; time budget for the whole component), " +
 		"census (library goroutines, client connections, fds, children) back at the baseline after Close; a failing scenario is re-run alone up to 3 times and reported only if it fails every time; " +
 		"non-trivial = a scenario in which at least one call returns its own answer and at least one other outcome or resource is decided by the fault",
 		Run: run})
@@ -153,6 +159,15 @@ func enumerate(c *hk.Ctx) []scen {
 				x = b
 				x.Fault, x.Pos = "none", "frameEnd"
 				out = append(out, x)
+				// the peer lingers: complete final answer frame, then the stream stays open (silent / a comment every 100 ms).
+				// Without a handler the call returns at once; with one the reader drains until the peer ends the stream
+				x = b
+				x.Fault, x.Pos, x.KeepAlive = "linger", "frameEnd", true
+				out = append(out, x)
+				if !h || c.Thorough() {
+					x.KeepAlive = false
+					out = append(out, x)
+				}
 			}
 		}
 		// ---- legacy SSE
@@ -215,6 +230,17 @@ func enumerate(c *hk.Ctx) []scen {
 				x.Where, x.Fault, x.Pos = "afterInit", "exit", "none"
 				out = append(out, x)
 			}
+			// the child has started a helper process that inherited its stderr and outlives it (a server that shelled out):
+			// the death of the child must end the pending calls all the same, not the death of the last holder of its stderr
+			for _, f := range []string{"kill", "exit"} {
+				x = b
+				x.Fault, x.Pos, x.Helper = f, "none", true
+				out = append(out, x)
+				if cb.answered == 1 || c.Thorough() {
+					x.Pos, x.Off = "dataPartial", pick(c, 1, 40)
+					out = append(out, x)
+				}
+			}
 		}
 	}
 	return out
@@ -255,12 +281,26 @@ func replay(c *hk.Ctx, path string) {
 	}
 }
 
+// Time budget of the component: whatever the library does, the scenarios stop being started once the budget is used up
+// (every single scenario is bounded by its ceilings), and so do the special scripts.
+func budgets(c *hk.Ctx) (scenarios, total time.Duration) {
+	if c.Thorough() {
+		return 15 * time.Minute, 18 * time.Minute
+	}
+	return 90 * time.Second, 130 * time.Second
+}
+
+// afterConfirmedHang: how many more scenarios of a class are run (with short ceilings) after a hang of that class has been
+// confirmed; the rest of the class is skipped (every one of them would cost its ceiling and show the same thing).
+const afterConfirmedHang = 3
+
 func run(c *hk.Ctx) {
 	if hk.ReplayFile != "" {
 		replay(c, hk.ReplayFile)
 		return
 	}
 	t0 := time.Now()
+	scenBudget, totalBudget := budgets(c)
 	// warm up: the first client of a process creates runtime-internal goroutines that would otherwise count as a difference
 	warm := scen{T: "streamJson", Framing: "length", N: 1, Fault: "none", Pos: "frameEnd", Ctx: "none"}
 	runHTTP(warm)
@@ -269,15 +309,35 @@ func run(c *hk.Ctx) {
 	confirmed := map[string]bool{}
 	transient := map[string]int{}
 	timing := map[string]float64{}
+	hangsAfterConfirmation := map[string]int{} // class -> scenarios that showed an already confirmed hang
+	skippedClass := map[string]int{}
+	skippedBudget := 0
+	slowest := map[string]float64{}
+	violated := false
 	for _, sc := range scens {
+		if time.Since(t0) > scenBudget {
+			skippedBudget++
+			continue
+		}
+		if hangsAfterConfirmation[sc.classKey()] >= afterConfirmedHang {
+			skippedClass[sc.classKey()]++
+			continue
+		}
 		ts := time.Now()
 		obs, probs := runOne(sc, c.Dir)
 		// a fingerprint that has been confirmed (failed in 3 solo re-runs) is not re-confirmed scenario after scenario
 		fresh := probs[:0:0]
+		recurred := false
 		for _, p := range probs {
 			if !confirmed[p.fp] {
 				fresh = append(fresh, p)
+			} else if isHangFp(p.fp) {
+				recurred = true
 			}
+		}
+		if recurred {
+			hangsAfterConfirmation[sc.classKey()]++
+			shortened[sc.classKey()] = true
 		}
 		probs = fresh
 		if len(probs) > 0 {
@@ -285,6 +345,13 @@ func run(c *hk.Ctx) {
 			persistent := map[string]problem{}
 			for _, p := range probs {
 				persistent[p.fp] = p
+			}
+			// the re-runs of a hang use the short ceilings (late is late: what the longer first wait adds is only the word "never")
+			wasShort := shortened[sc.classKey()]
+			for _, p := range probs {
+				if isHangFp(p.fp) {
+					shortened[sc.classKey()] = true
+				}
 			}
 			for k := 0; k < 3 && len(persistent) > 0; k++ {
 				reruns++
@@ -304,16 +371,22 @@ func run(c *hk.Ctx) {
 				}
 				obs = o2
 			}
+			shortened[sc.classKey()] = wasShort
 			invalid := false
 			for fp, p := range persistent {
 				if strings.HasPrefix(fp, "calls:harness:") {
+					// the scenario could not be run, four times in a row: not noise any more. The class is given up (each
+					// further attempt costs the barrier's ceiling), and it is a finding: on the unchanged tree every script runs
 					invalid = true
-					c.Noise()
+					hangsAfterConfirmation[sc.classKey()] = afterConfirmedHang
+					violated = true
+					c.Violate(hk.Violation{Fingerprint: "calls:" + sc.transportTag() + ":scenario_cannot_run:" + strings.TrimPrefix(fp, "calls:harness:"), What: "a fault script could not be run against the library, four times in a row (" + p.what + "): the library does not get as far as the script's barrier", Input: sc, Observed: p.observed})
 					continue
 				}
 				confirmed[fp] = true
-				if strings.HasSuffix(fp, ":call_never_returns") {
-					hangCeilings[sc.transportTag()] = latencyCeiling + 500*time.Millisecond
+				violated = true
+				if isHangFp(fp) {
+					shortened[sc.classKey()] = true
 				}
 				c.Violate(hk.Violation{Fingerprint: fp, What: p.what, Input: sc, Observed: p.observed})
 			}
@@ -327,26 +400,42 @@ func run(c *hk.Ctx) {
 				nontrivial = sc.Fault != "none" && (sc.N > 1 || sc.Pos != "none")
 			}
 		}
-		c.Emit(sc.op(), obs, nontrivial, "t-"+sc.T, "fault-"+sc.Fault, "pos-"+sc.Pos, "ctx-"+sc.Ctx, fmt.Sprintf("n-%d-answered-%d", sc.N, sc.Answered))
-		timing[sc.T] += time.Since(ts).Seconds()
+		tags := []string{"t-" + sc.T, "fault-" + sc.Fault, "pos-" + sc.Pos, "ctx-" + sc.Ctx, fmt.Sprintf("n-%d-answered-%d", sc.N, sc.Answered)}
+		if sc.Helper {
+			tags = append(tags, "stderr-held-by-helper")
+		}
+		c.Emit(sc.op(), obs, nontrivial, tags...)
+		d := time.Since(ts).Seconds()
+		timing[sc.T] += d
+		if d > slowest[sc.classKey()] {
+			slowest[sc.classKey()] = d
+		}
 	}
-	ts := time.Now()
-	runCloseLive(c)
-	timing["closeLive"] = time.Since(ts).Seconds()
-	ts = time.Now()
-	runGetAfterClose(c)
-	timing["getAfterClose"] = time.Since(ts).Seconds()
-	ts = time.Now()
-	runServerSide(c)
-	timing["serverSide"] = time.Since(ts).Seconds()
-	ts = time.Now()
-	runDoubleClose(c)
-	timing["doubleClose"] = time.Since(ts).Seconds()
+	if skippedBudget > 0 && !violated {
+		// out of time without a finding: the run must not look green
+		c.Violate(hk.Violation{Fingerprint: "calls:run:time_budget_used_up", What: fmt.Sprintf("the fault scripts used up their time budget (%v) without a confirmed finding: %d scenarios were not run", scenBudget, skippedBudget),
+			Input: map[string]any{"scenarios": len(scens)}, Observed: map[string]any{"seconds_by_transport": timing, "slowest_scenario_by_class_s": slowest}})
+	}
+	special := func(name string, fn func(*hk.Ctx)) {
+		if time.Since(t0) > totalBudget {
+			skippedBudget++
+			return
+		}
+		ts := time.Now()
+		fn(c)
+		timing[name] = time.Since(ts).Seconds()
+	}
+	special("closeLive", runCloseLive)
+	special("getAfterClose", runGetAfterClose)
+	special("serverSide", runServerSide)
+	special("doubleClose", runDoubleClose)
 	c.SetExtra("timing_s", timing)
 	c.SetExtra("solo_reruns", reruns)
 	c.SetExtra("transient_oracle_failures", noise)
 	c.SetExtra("transient_oracle_failures_by_kind", transient)
 	c.SetExtra("scenarios", len(scens))
+	c.SetExtra("scenarios_skipped_after_confirmed_hang_by_class", skippedClass)
+	c.SetExtra("skipped_time_budget", skippedBudget)
 	c.SetExtra("wall_s", time.Since(t0).Seconds())
 }
 
@@ -367,6 +456,7 @@ func runCloseLive(c *hk.Ctx) {
 	var pids []int
 	stalls := 0
 	okCalls := 0
+	neverClosed, neverReturned := 0, 0
 	for i := 0; i < k; i++ {
 		wg.Add(1)
 		go func() {
@@ -377,17 +467,32 @@ func runCloseLive(c *hk.Ctx) {
 			if err != nil {
 				panic(err)
 			}
-			ctx, cancel := context.WithTimeout(context.Background(), 10*time.Second)
-			defer cancel()
-			if _, err := cl.Initialize(ctx, nil); err != nil {
+			if err := initBounded(cl); err != nil {
 				go cl.Close()
 				return
 			}
+			ctx, cancel := context.WithTimeout(context.Background(), 10*time.Second)
+			defer cancel()
 			nonce := fmt.Sprintf("n%07d", nonceCtr.Add(1))
-			r := callTool(ctx, cl.CallTool, nonce)
+			var r callRes
+			rc := make(chan callRes, 1)
+			go func() { rc <- callTool(ctx, cl.CallTool, nonce) }()
+			select {
+			case r = <-rc:
+			case <-time.After(12 * time.Second):
+				r = callRes{nonce: nonce, err: fmt.Errorf("abandoned")}
+				mu.Lock()
+				neverReturned++
+				mu.Unlock()
+			}
 			pid := cl.GetProcessID()
 			ts := time.Now()
-			cl.Close()
+			if !bounded(closeCeiling, func() { cl.Close() }) {
+				mu.Lock()
+				neverClosed++
+				mu.Unlock()
+				syscall.Kill(pid, syscall.SIGKILL) // harness hygiene
+			}
 			mu.Lock()
 			if r.err == nil && r.text == "echo:"+nonce {
 				okCalls++
@@ -416,6 +521,12 @@ func runCloseLive(c *hk.Ctx) {
 		}
 	}
 	in := map[string]any{"script": "closeLive", "clients": k}
+	if neverClosed > 0 {
+		c.Violate(hk.Violation{Fingerprint: "calls:stdio:close_never_returns", What: "Close() on a live child had not returned after " + closeCeiling.String() + " (abandoned)", Input: in, Observed: map[string]any{"clients": neverClosed}})
+	}
+	if neverReturned > 0 {
+		c.Violate(hk.Violation{Fingerprint: "calls:stdio:call_never_returns", What: "a call on a live, answering child did not return 2 s after its context's end (abandoned)", Input: in, Observed: map[string]any{"clients": neverReturned}})
+	}
 	if l.Stuck > 0 {
 		c.Violate(hk.Violation{Fingerprint: "calls:stdio:goroutine_stuck_in_cmd_wait", What: "Close() on a live child leaves one library goroutine blocked for ever in exec.Cmd.Wait (processWatcher and close() both call Wait on one Cmd, only one of them can receive the Cmd's single context result); when close()'s own Wait is the loser, Close stalls 5 s and reports a failed kill",
 			Input: in, Observed: map[string]any{"goroutines": libKeys(left), "closes_that_stalled_5s": stalls}})
@@ -449,8 +560,22 @@ func runGetAfterClose(c *hk.Ctx) {
 		}
 		old := runtime.GOMAXPROCS(1)
 		ctx, cancel := context.WithTimeout(context.Background(), 10*time.Second)
-		_, err = cl.Initialize(ctx, nil)
-		cl.Close()
+		// Initialize and Close in one goroutine, back to back (this one only waits: it does not take the P)
+		done := make(chan error, 1)
+		go func() {
+			_, e := cl.Initialize(ctx, nil)
+			cl.Close()
+			done <- e
+		}()
+		select {
+		case err = <-done:
+		case <-time.After(10*time.Second + closeCeiling):
+			runtime.GOMAXPROCS(old)
+			cancel()
+			p.shutdown()
+			c.Violate(hk.Violation{Fingerprint: "calls:streamable:close_never_returns", What: "Initialize followed at once by Close() had not returned after " + (10*time.Second + closeCeiling).String() + " (abandoned)", Input: map[string]any{"script": "Initialize; Close (immediately, GOMAXPROCS=1)"}})
+			return
+		}
 		closedAt := time.Now()
 		runtime.GOMAXPROCS(old)
 		if err != nil {
